@@ -343,7 +343,7 @@ pub fn build_layout(d: &Value, km: &KeyMap, rng: &mut impl rand::Rng) -> Metadat
         "yearend" => chrono::TimeZone::with_ymd_and_hms(&chrono::Utc, 2024, 12, 30, 23, 59, 59).unwrap(),
         _ => crate::verify::t0() + chrono::Duration::days(365 * 200),
     };
-    let mut b = LayoutMetadataBuilder::new().expires(exp).readme(format!("r{s}"));
+    let mut b = LayoutMetadataBuilder::new().expires(exp).readme(s.clone()); // the empty class gives an empty readme
     let knames: Vec<&str> = match d["keys"].as_str().unwrap() {
         "none" => vec![],
         "ed" => vec!["ed"],
